@@ -53,7 +53,9 @@ def in_scope(prop, b):
         # the board cannot even be read any more: every history property is violated at once
         return prop in ("C04", "C12")
     if prop == "C07":
-        return ev == "Search"
+        # the answer, a crash, or the caller's board changed by the call (a key that is wrong before AND after
+        # is C05's business)
+        return ev == "Search" and bool(d & (ALLOBS | {"keyStable", "result", "failed"}))
     if prop == "C01":
         return ev == "Moves" and bool(d & {"result", "failed"})
     if prop == "C03":
